@@ -207,7 +207,9 @@ Section Built.
     | None => knows K pub = false
     end.
   Proof.
-    intros HN. unfold matched. rewrite Hkps, HN. unfold knows.
+    intros HN. unfold matched. rewrite Hkps.
+    assert (HLt : (Z.to_nat i < length kps)%nat) by (apply nth_error_Some; congruence).
+    replace (Z.of_nat (length kps) <=? i) with false by lia. rewrite HN. unfold knows.
     destruct (find _ K) as [sk|] eqn:EF.
     - apply find_some in EF. destruct EF as [HI HE]. split.
       + apply existsb_exists. eauto.
